@@ -318,7 +318,9 @@ def gen_memdep_x86(rng):
             return "(%s)" % b if (disp == 0 and shape == "b") else "%d(%s)" % (disp, b)
         return "(%s,%s,%d)" % (b, i, s_) if (disp == 0 and shape == "bis") else "%d(%s,%s,%d)" % (disp, b, i, s_)
 
-    lines = [rng.choice(["movq %s, %s" % (val, addr(base, idx, sc, d0)), "vmovsd %%xmm1, %s" % addr(base, idx, sc, d0)])]
+    # the store: a plain store, or a read-modify-write whose hidden flag destinations precede the memory destination
+    lines = [rng.choice(["movq %s, %s" % (val, addr(base, idx, sc, d0)), "vmovsd %%xmm1, %s" % addr(base, idx, sc, d0),
+                         "addq %s, %s" % (val, addr(base, idx, sc, d0)), "subq $1, %s" % addr(base, idx, sc, d0)])]
     sym = {}                                    # reg -> (origin, delta) | None
     store_addr = _sym_addr(sym, base, idx if has_idx else None, sc, d0)
     holders_b, holders_i = [base], [idx]        # registers currently derived from base / index
